@@ -161,6 +161,34 @@ func Typed(k int, a *rec) bool {
 	n := pick(k, a)
 	return n == nil
 }
+
+// a helper call nested in a literal / among the arguments of another call
+func label(r *rec) string {
+	if r == nil {
+		return "none"
+	}
+	return r.name
+}
+
+var sink []string
+
+func bump(r *rec) string {
+	sink = append(sink, r.name)
+	return r.name
+}
+
+func Nested(r *rec, out []string) (*rec, []string) {
+	x := &rec{name: label(r), n: 1}
+	out = append(out, label(r.next))
+	return x, out
+}
+
+// not hoisted: the other operand is memory the (writing) helper could reach, or the call is conditional
+func NotNested(r *rec, q *rec) (string, bool) {
+	s := fmt.Sprint(q.name, bump(r))
+	ok := r != nil && label(r) == "x"
+	return s, ok
+}
 `
 
 func TestInlinerSmoke(t *testing.T) {
@@ -228,7 +256,15 @@ func TestInlinerSmoke(t *testing.T) {
 	if strings.Contains(part, "check(") || !strings.Contains(part, "return 7, inl_r") {
 		t.Errorf("call among the results of a return not hoisted and expanded:\n%s", part)
 	}
-	typed := ov[strings.Index(ov, "func Typed"):]
+	nested := ov[strings.Index(ov, "func Nested"):strings.Index(ov, "func NotNested")]
+	if strings.Contains(nested, "label(") || !strings.Contains(nested, "name: inl_l") || !strings.Contains(nested, "append(out, inl_l") {
+		t.Errorf("helper calls nested in a literal / an argument list not hoisted and expanded:\n%s", nested)
+	}
+	notNested := ov[strings.Index(ov, "func NotNested"):]
+	if !strings.Contains(notNested, "bump(r)") || !strings.Contains(notNested, "label(r) == \"x\"") {
+		t.Errorf("a writing helper next to a memory read, or a call under &&, must stay in place:\n%s", notNested)
+	}
+	typed := ov[strings.Index(ov, "func Typed"):strings.Index(ov, "func label")]
 	if !strings.Contains(typed, "*rec") {
 		t.Errorf("the *rec local of pick must keep its type when pick is expanded into Typed:\n%s", typed)
 	}
